@@ -114,6 +114,7 @@ type SrvConn struct {
 	// OnPartial, if set, is called when a read leaves an incomplete frame buffered; true = the
 	// peer dies now (the connection is closed with the rest of the request unread)
 	OnPartial func(sc *SrvConn, buffered int) bool
+	gate      chan struct{} // one writer at a time (a semaphore: blocking on a channel is a durable block in the bubble)
 }
 
 // Server is a scripted peer on the simulated network.
@@ -150,7 +151,7 @@ func (s *Server) acceptLoop(l simnet.Listener) {
 		if err != nil {
 			return
 		}
-		sc := &SrvConn{Srv: s, C: c.(*simnet.TCPConn)}
+		sc := &SrvConn{Srv: s, C: c.(*simnet.TCPConn), gate: make(chan struct{}, 1)}
 		s.mu.Lock()
 		sc.ID = sc.C.ID
 		s.Conns = append(s.Conns, sc)
@@ -211,6 +212,8 @@ func (sc *SrvConn) readLoop() {
 
 // Reply writes a response frame; errors (connection gone) are returned.
 func (sc *SrvConn) Reply(r *refcodec.Response) error {
+	sc.gate <- struct{}{}
+	defer func() { <-sc.gate }()
 	_, err := sc.C.Write(refcodec.EncodeResponse(r))
 	if err == nil {
 		sc.mu.Lock()
@@ -221,7 +224,25 @@ func (sc *SrvConn) Reply(r *refcodec.Response) error {
 }
 
 // WriteRaw writes arbitrary bytes.
-func (sc *SrvConn) WriteRaw(b []byte) error { _, err := sc.C.Write(b); return err }
+func (sc *SrvConn) WriteRaw(b []byte) error {
+	sc.gate <- struct{}{}
+	defer func() { <-sc.gate }()
+	_, err := sc.C.Write(b)
+	return err
+}
+
+// WriteSplit writes b in two pieces with a pause in between; nothing else is written to the
+// connection meanwhile (one frame, two segments).
+func (sc *SrvConn) WriteSplit(b []byte, k int, pause time.Duration) error {
+	sc.gate <- struct{}{}
+	defer func() { <-sc.gate }()
+	if _, err := sc.C.Write(b[:k]); err != nil {
+		return err
+	}
+	simrt.Sleep(pause)
+	_, err := sc.C.Write(b[k:])
+	return err
+}
 
 // Close closes the connection from the server side.
 func (sc *SrvConn) Close() {
